@@ -4,6 +4,8 @@ import Tw.Proofs.HuffmanDec
 import Tw.Proofs.HuffmanTable
 import Tw.Proofs.HuffmanRefC
 import Tw.Proofs.HuffmanRefD
+import Tw.Proofs.HuffmanStream
+import Tw.Model.HuffmanFreq
 import Tw.Gen.Huffman
 
 /-!
@@ -74,6 +76,20 @@ theorem compressInto_iff (t : Table) (xs : List UInt8) (cap : Nat) :
   simp only [compressInto, compress_length_false, compress_length_true]
   constructor <;> (split <;> simp_all)
 
+/-- The compressor in the form of the Rust code (`compress_impl_unsafe`: one `u8` under construction,
+first partial byte / whole bytes / remainder per symbol, every `output.next().ok_or(())?`) computes
+exactly the spec form used above: the same bytes when they fit into `cap`, the capacity error
+otherwise, and none of its `u8`/`u32` overflow sites is reached. -/
+theorem streaming_compressor_eq_spec (t : Table) (h : WellFormed t) (bug : Bool) (xs : List UInt8)
+    (cap : Nat) :
+    compressStreamInto t bug xs cap =
+      if (compress t bug xs).length ≤ cap then .ok (compress t bug xs) else .capacity :=
+  compressStreamInto_eq t h bug xs cap
+
+theorem streaming_compressor_no_panic (t : Table) (h : WellFormed t) (bug : Bool) (xs : List UInt8)
+    (cap : Nat) : compressStreamInto t bug xs cap ≠ .panic := by
+  rw [compressStreamInto_eq t h bug xs cap]; split <;> simp
+
 /-! ## (3) the decoder is total and bounded -/
 
 /-- On every input and for every capacity the decoder terminates within its fuel (the model's
@@ -130,6 +146,33 @@ theorem reference_is_stricter_witness :
     refDecompress Tw.Gen.Huffman.table 9 [0xb1, 0x08, 0x2a, 0x6e] 7 = .error
       ∧ decompress Tw.Gen.Huffman.table [0xb1, 0x08, 0x2a, 0x6e] 7 = .ok [0, 1, 0, 2, 0, 0x80, 0] := by
   decide +kernel
+
+/-! ## tables built from arbitrary frequency vectors -/
+
+/-- The full statement for `Huffman::from_frequencies`: every vector of 256 `u32` frequencies yields a
+table to which all of the above applies.  **Not provable**: `from_frequencies` panics when the
+Huffman tree is deeper than 24 (open finding D16, e.g. all-zero frequencies — model and
+implementation both `panic` on the replay in `corpus/huffman/finding-d16.txt`). -/
+def C07_full : Prop :=
+  ∀ f : List Nat, f.length = 256 → (∀ x ∈ f, x < 2 ^ 32) →
+    ∃ t, fromFrequencies f = .ok t ∧ WellFormed t ∧ LutOk t
+
+/-- What is proved instead: for every frequency vector on which the construction succeeds with a table
+satisfying the two decidable predicates (the driver decides them for every sampled vector and
+reports `ok-but-not-wellformed` otherwise), the codec with that table is lossless, predicts its
+length, is total and bounded, and agrees with the reference algorithms run on the same table. -/
+theorem fromFrequencies_tables_partial (f : List Nat) (t : Table) (_hok : fromFrequencies f = .ok t)
+    (h : WellFormed t) (hl : LutOk t) :
+    (∀ bug xs cap, xs.length ≤ cap → decompress t (compress t bug xs) cap = .ok xs)
+    ∧ (∀ input cap, decompress t input cap ≠ .diverge)
+    ∧ (∀ input cap out, decompress t input cap = .ok out → out.length ≤ cap)
+    ∧ (∀ xs, compress t true xs = refCompress t xs)
+    ∧ (∀ fuel input cap out, refDecompress t fuel input cap = .ok out → decompress t input cap = .ok out) :=
+  ⟨fun bug xs cap hc => decompress_compress t h bug xs cap hc,
+   fun input cap => decompress_terminates t h input cap,
+   fun input cap out ho => decompress_bound t input cap out ho,
+   fun xs => (refCompress_eq_compress_bug t h xs).symm,
+   fun fuel input cap out hr => refDecompress_agrees t h hl fuel input cap out hr⟩
 
 /-! ## non-vacuity -/
 
